@@ -4,8 +4,9 @@ CONSTANTS
   MaxSeg = 24
   MaxSize = 60
   MaxOps = 7
+  MaxTime = 2
   MaxAppends = 5
 INVARIANTS TypeOK DeliveredIsAppendOrder CurrentIsOldestUnadvanced NoStall
-PROPERTIES RejectedAppendChangesNothing
+PROPERTIES RejectedAppendChangesNothing PurgeKeepsYoung
 VIEW View
 CHECK_DEADLOCK FALSE
